@@ -153,10 +153,10 @@ type Peer struct {
 	User               any
 }
 
-// Dial creates a connection to the listener at addr and queues it for accept. Environment side.
+// EnvDial creates a connection to the listener at addr and queues it for accept. Environment side.
 //
 //go:norace
-func Dial(addr, label string) *Peer {
+func EnvDial(addr, label string) *Peer {
 	simrt.RaceOff()
 	defer simrt.RaceOn()
 	l := findListener(addr)
@@ -399,3 +399,75 @@ func IsTimeout(err error) bool {
 
 // rcopy is race-instrumented on purpose.
 func rcopy(dst, src []byte) int { return copy(dst, src) }
+
+// ---- pass-through for the pure helpers and types of package net that a changed tree might use ----
+
+type (
+	UDPAddr             = stdnet.UDPAddr
+	IPAddr              = stdnet.IPAddr
+	UnixAddr            = stdnet.UnixAddr
+	IPNet               = stdnet.IPNet
+	IPMask              = stdnet.IPMask
+	AddrError           = stdnet.AddrError
+	ParseError          = stdnet.ParseError
+	DNSError            = stdnet.DNSError
+	InvalidAddrError    = stdnet.InvalidAddrError
+	UnknownNetworkError = stdnet.UnknownNetworkError
+	Buffers             = stdnet.Buffers
+	HardwareAddr        = stdnet.HardwareAddr
+)
+
+var (
+	IPv4zero = stdnet.IPv4zero
+	IPv6zero = stdnet.IPv6zero
+)
+
+func JoinHostPort(host, port string) string { return stdnet.JoinHostPort(host, port) }
+func SplitHostPort(hostport string) (string, string, error) {
+	return stdnet.SplitHostPort(hostport)
+}
+func ParseIP(s string) IP                        { return stdnet.ParseIP(s) }
+func IPv4(a, b, c, d byte) IP                    { return stdnet.IPv4(a, b, c, d) }
+func ParseCIDR(s string) (IP, *IPNet, error)     { return stdnet.ParseCIDR(s) }
+func ResolveIPAddr(n, a string) (*IPAddr, error) { return stdnet.ResolveIPAddr(n, a) }
+
+// DialTCP / Dial / DialTimeout: the servers never dial; a changed tree that does gets a refused connection.
+//
+//go:norace
+func Dial(network, address string) (Conn, error) {
+	return nil, &OpError{Op: "dial", Net: network, Err: syscall.ECONNREFUSED}
+}
+
+//go:norace
+func DialTimeout(network, address string, d time.Duration) (Conn, error) {
+	return Dial(network, address)
+}
+
+//go:norace
+func DialTCP(network string, laddr, raddr *TCPAddr) (*TCPConn, error) {
+	return nil, &OpError{Op: "dial", Net: network, Err: syscall.ECONNREFUSED}
+}
+
+// File-descriptor level access is not modelled.
+//
+//go:norace
+func (c *TCPConn) ReadFrom(r io.Reader) (int64, error) {
+	buf := make([]byte, 32*1024)
+	var total int64
+	for {
+		n, err := r.Read(buf)
+		if n > 0 {
+			w, werr := c.Write(buf[:n])
+			total += int64(w)
+			if werr != nil {
+				return total, werr
+			}
+		}
+		if err != nil {
+			if err == io.EOF {
+				return total, nil
+			}
+			return total, err
+		}
+	}
+}
